@@ -6,16 +6,16 @@ From Suiron Require Import Model.Term Model.Subst Model.Builtins Model.Rename Mo
 Open Scope N_scope.
 
 (* ask a node until it reports no answer (at most m times) *)
-Fixpoint drain (kb : kbase) (fuel m : nat) (nd : node) (w : world) : res (list subst * node * world) :=
+Fixpoint drain (kb : kbase) (bf fuel m : nat) (nd : node) (w : world) : res (list subst * node * world) :=
   match m with
   | O => OutOfFuel
   | S m' =>
-      do x <- next kb fuel nd w;
+      do x <- next kb bf fuel nd w;
       let '(nd', r, _, w') := x in
       match r with
       | None => Ok ([], nd', w')
       | Some s =>
-          do y <- drain kb fuel m' nd' w';
+          do y <- drain kb bf fuel m' nd' w';
           let '(l, nd'', w'') := y in Ok (s :: l, nd'', w'')
       end
   end.
@@ -38,10 +38,10 @@ Definition same_up_to_renaming (a b : term) : Prop :=
    equal up to renaming of unbound variables once the query is resolved under it, and writes
    the reference output. *)
 Definition refines_reference : Prop :=
-  forall kb q ctr fuel evs nd w answers nd' w' fuel2,
+  forall kb q ctr fuel evs nd w answers nd' w' bf fuel2,
     query_events kb fuel q ctr = SOk evs ->
     make_base_node kb (GCall q) (mkWorld ctr false None []) = Ok (nd, w) ->
-    drain kb fuel2 (S (length (answers_of evs))) nd w = Ok (answers, nd', w') ->
+    drain kb bf fuel2 (S (length (answers_of evs))) nd w = Ok (answers, nd', w') ->
     out w' = output_of evs /\
     Forall2 (fun sm se => forall rm re,
                replace_variables fuel2 q sm = Ok rm -> replace_variables fuel2 q se = Ok re ->
